@@ -5,9 +5,10 @@ import json
 import sys
 
 pid, wt, n = sys.argv[1], sys.argv[2], int(sys.argv[3]) if len(sys.argv) > 3 else 2
-round2 = len(sys.argv) > 4 and sys.argv[4] in ("round2", "round3", "round4")
-round3 = len(sys.argv) > 4 and sys.argv[4] in ("round3", "round4")
-round4 = len(sys.argv) > 4 and sys.argv[4] == "round4"
+round2 = len(sys.argv) > 4 and sys.argv[4] in ("round2", "round3", "round4", "round5")
+round3 = len(sys.argv) > 4 and sys.argv[4] in ("round3", "round4", "round5")
+round4 = len(sys.argv) > 4 and sys.argv[4] in ("round4", "round5")
+round5 = len(sys.argv) > 4 and sys.argv[4] == "round5"
 for l in open("/verif/properties.jsonl"):
     p = json.loads(l)
     if p["id"] == pid:
@@ -34,6 +35,15 @@ if round4:
               "misplaced stop_gradient, discount applied before the baseline, dropped action bias, noise shared over the batch. Think "
               "about what a reviewer would still wave through: numerically plausible rewrites that are only equal under an unstated "
               "assumption, state that survives between two calls of the same routine, interactions between two optional features.")
+if round5:
+    extra += (" A fourth round is done as well; also used already: in-place modification of the caller's numpy arguments, "
+              "E[x^2]-E[x]^2 variance rewrites, (N,) vs (N,1) broadcasting in a loss, pickling that truncates or zeroes rows, "
+              "sampled-task vs selected-task confusion, softmax-then-log instead of log-softmax, extra target sync when a call starts on a "
+              "period boundary, mutable default arguments shared between calls, params-only state copies. Prefer: legal but rare "
+              "hyper-parameter combinations of the relevant functions (read every keyword argument and ask which value nobody tests), "
+              "arithmetic that is only right for one dtype or one sign, orderings of two statements that matter only in one branch, "
+              "and bookkeeping that goes wrong only the second time something happens (second wrap-around, second episode, second "
+              "task switch, second call).")
 print(f"""You are given a git worktree of the Python repository mlaux1/rl-blox (a JAX/Flax toolbox of reinforcement-learning algorithms) at {wt}. Work ONLY inside {wt} (never touch /repo, never look at /verif). The package is installed in editable mode from another directory, so ALWAYS run python as `cd {wt} && PYTHONPATH={wt} JAX_PLATFORMS=cpu /venv/bin/python ...` and confirm once that `import rl_blox; print(rl_blox.__file__)` points into {wt}.
 
 Here is a semantic property that the library is supposed to satisfy:
@@ -50,7 +60,7 @@ Your task: produce {n} DIFFERENT, realistic source changes to rl_blox (each a sm
 For each change k = 1..{n}:
  1. Make the edit in the worktree (start each change from a clean tree: `git -C {wt} checkout -- .`).
  2. Write a demonstration program {wt}/demo_k.py (plain Python script using only the library's public API plus numpy/jax/gymnasium; exit code 0 = property holds, exit code 1 = property violated, printing what was observed) that FAILS (exit 1) with the change and PASSES (exit 0) on the unchanged tree. Verify both directions yourself.
- 3. Run the relevant existing tests with the change applied: `cd {wt} && PYTHONPATH={wt} /venv/bin/python -m pytest -q -p no:cacheprovider -x tests/<relevant files>`; then the whole suite once: `cd {wt} && PYTHONPATH={wt} /venv/bin/python -m pytest -q -p no:cacheprovider --timeout=900 tests` (it takes 10-25 minutes on this busy machine, tests/test_cmaes.py alone can need 15+ minutes - use --timeout=3600 if it times out under load; be patient) and confirm everything passes. If a test fails, the change is not acceptable — revise it.
+ 3. Run the relevant existing tests with the change applied: `cd {wt} && PYTHONPATH={wt} /venv/bin/python -m pytest -q -p no:cacheprovider -x tests/<relevant files>`; (every test file that imports or exercises the module you changed - grep the tests directory for it) and confirm they pass. If a test fails, the change is not acceptable — revise it. Do NOT run the whole suite (it takes 10-25 minutes on this shared machine; it will be run on your change afterwards by someone else), but be sure that no other test can be affected.
  4. Save the change as {wt}/change_k.diff with `git -C {wt} diff -- rl_blox > {wt}/change_k.diff` (only files under rl_blox/), and keep demo_k.py.
 Finish with the tree clean again (`git -C {wt} checkout -- .`; the untracked change_k.diff / demo_k.py files stay).
 
